@@ -2,9 +2,26 @@
    and completeness of the walk that follows the server's continuation.  Statements are fixed
    in content; you may restructure helper definitions, add lemmas, strengthen — never weaken
    silently.  Model: Model/Mem.v (scan, skip_group, sm_after in Base/SortedMap.v),
-   Model/MemWalk.v (page, unpaged, walk). *)
+   Model/MemWalk.v (page, unpaged, walk).
+
+   STATUS
+   (1) page_bound                      proved as stated.
+   (4) page_after_marker               proved as stated.
+   (2) page_progress, (3) walk_complete are FALSE of the model as stated: a map that contains
+       the empty key [] refutes both (the continuation marker [] means "from the beginning", so
+       the walk restarts forever).  Machine-checked: walk_empty_key_refuted,
+       page_progress_as_stated_false, walk_complete_as_stated_false (end of file).
+       Proved instead, with the single extra hypothesis  ~ In [] (map fst objs)  (the empty key
+       is unreachable through the HTTP API) and otherwise the full original conclusions:
+         page_progress_nonempty_keys, walk_complete_nonempty_keys;
+       and page_progress_gen (no extra hypothesis; only the conjunct lr_next r <> [] is conditioned
+       by  marker <> [] \/ ~ In [] (map fst objs)).
+   Reusable helpers: scan_bound, scan_contents_in, sm_after_gt, sm_after_incl, sm_after_split,
+   ucont / upfx (the listing as two folds), scan_unpaged, skip_group_spec, scan_split (one-page
+   split lemma), upfx_shift, upfx_distr, contig_disjoint, groups_contiguous_suffix, walk_gen. *)
 From GF Require Import Base.Bytes Base.SortedMap Model.Prefix Model.Mem Model.MemWalk
   Proofs.BytesFacts Proofs.SortedMapFacts.
+From Coq Require Import Lia ZifyBool ZifyNat.
 Open Scope Z_scope.
 
 Definition data_some (items : list (list N * obj)) : Prop :=
@@ -21,29 +38,630 @@ Definition groups_contiguous (pre : list N) (delim : option N) (keys : list (lis
 
 Definition entries (r : list_result) : Z := Z.of_nat (length (lr_contents r) + length (lr_prefixes r)).
 
+Lemma add_prefix_length p ps :
+  (length (add_prefix p ps) <= S (length ps))%nat.
+Proof.
+  unfold add_prefix. destruct (existsb (beq p) ps); [lia|]. rewrite app_length. cbn. lia.
+Qed.
+
+Lemma scan_bound pre delim mk items :
+  1 <= mk -> data_some items ->
+  forall cnt lp acc, cnt < mk -> lr_panic acc = false ->
+  entries (scan pre delim mk items cnt lp acc) + cnt <= mk + entries acc /\
+  lr_panic (scan pre delim mk items cnt lp acc) = false.
+Proof.
+  intros Hmk Hd. induction Hd as [|[k o] items Ho Hd IH]; intros cnt lp acc Hc Hp.
+  - cbn [scan]. split; [lia|exact Hp].
+  - cbn [scan]. cbn [snd] in Ho. destruct (o_data o) as [v|] eqn:Eo; [|congruence].
+    destruct (prefix_match pre delim k) as [| |p] eqn:Epm.
+    + apply IH; assumption.
+    + destruct (vd_marker v) eqn:Em; [apply IH; assumption|].
+      destruct ((0 <? mk) && (mk <=? cnt + 1)) eqn:Ef.
+      * unfold entries. cbn [lr_contents lr_prefixes lr_panic]. rewrite app_length. cbn [length].
+        split; [lia|reflexivity].
+      * specialize (IH (cnt + 1) lp
+          {| lr_contents := lr_contents acc ++ [(k, vd_body v)]; lr_prefixes := lr_prefixes acc;
+             lr_truncated := false; lr_next := []; lr_panic := false |}).
+        destruct IH as [IH1 IH2]; [lia|reflexivity|]. split; [|exact IH2].
+        set (e := entries (scan _ _ _ _ _ _ _)) in *. clearbody e.
+        unfold entries in *. cbn [lr_contents lr_prefixes] in IH1. rewrite app_length in IH1. cbn [length] in IH1. lia.
+    + destruct (vd_marker v) eqn:Em; [apply IH; assumption|].
+      destruct (match lp with Some q => beq p q | None => false end) eqn:El; [apply IH; assumption|].
+      pose proof (add_prefix_length p (lr_prefixes acc)) as Hl.
+      destruct ((0 <? mk) && (mk <=? cnt + 1)) eqn:Ef.
+      * destruct (skip_group pre delim p k items) as [nm rest'] eqn:Esk.
+        unfold entries. cbn [lr_contents lr_prefixes lr_panic]. split; [lia|reflexivity].
+      * specialize (IH (cnt + 1) (Some p)
+          {| lr_contents := lr_contents acc; lr_prefixes := add_prefix p (lr_prefixes acc);
+             lr_truncated := false; lr_next := []; lr_panic := false |}).
+        destruct IH as [IH1 IH2]; [lia|reflexivity|]. split; [|exact IH2].
+        set (e := entries (scan _ _ _ _ _ _ _)) in *. clearbody e.
+        unfold entries in *. cbn [lr_contents lr_prefixes] in IH1. lia.
+Qed.
+
 (* (1) a page never holds more entries than max-keys *)
 Lemma page_bound pre delim mk items :
   1 <= mk -> data_some items ->
   entries (scan pre delim mk items 0 None empty_list) <= mk /\
   lr_panic (scan pre delim mk items 0 None empty_list) = false.
 Proof.
-Admitted.
+  intros Hmk Hd. destruct (scan_bound pre delim mk items Hmk Hd 0 None empty_list) as [H1 H2]; [lia|reflexivity|].
+  split; [|exact H2]. unfold entries at 2 in H1. cbn in H1. lia.
+Qed.
 
-(* (2) progress: a truncated page hands back a marker that is a key of the map and lies
-   strictly after the marker it was asked with *)
-Lemma page_progress pre delim mk objs marker :
+(* ---- sm_after on sorted maps ---- *)
+Section AfterFacts.
+Context {V : Type}.
+Notation map_ := (list (list N * V)).
+
+Lemma lb_in k (m : map_) k' v : lb k m -> In (k', v) m -> bltb k k' = true.
+Proof.
+  induction m as [|[k2 v2] m IH]; cbn; [intros _ []|]. intros [H1 H2] [H|H].
+  - inversion H; subst. exact H1.
+  - apply IH; assumption.
+Qed.
+
+Lemma sm_after_incl k (m : map_) x : In x (sm_after k m) -> In x m.
+Proof.
+  induction m as [|[k2 v2] m IH]; cbn; [trivial|].
+  destruct (bleb k2 k); [|trivial]. intros H. right. apply IH. exact H.
+Qed.
+
+Lemma sm_after_gt k (m : map_) k' v : sorted m -> In (k', v) (sm_after k m) -> bltb k k' = true.
+Proof.
+  induction m as [|[k2 v2] m IH]; cbn; [intros _ []|]. intros [H1 H2].
+  destruct (bleb k2 k) eqn:E; [apply IH; exact H2|].
+  unfold bleb in E. apply negb_false_iff in E. intros [H|H].
+  - inversion H; subst. exact E.
+  - eapply bltb_trans; [exact E|]. eapply lb_in; eassumption.
+Qed.
+
+Lemma sm_after_lb k (m : map_) : lb k m -> sm_after k m = m.
+Proof.
+  destruct m as [|[k2 v2] m]; cbn; [trivial|]. intros [H1 _].
+  unfold bleb. rewrite H1. reflexivity.
+Qed.
+
+Lemma lb_app k (a b : map_) : lb k (a ++ b) -> lb k a /\ lb k b.
+Proof.
+  induction a as [|[k2 v2] a IH]; cbn; [auto|]. intros [H1 H2]. apply IH in H2. tauto.
+Qed.
+
+Lemma sorted_app_r (a b : map_) : sorted (a ++ b) -> sorted b.
+Proof.
+  induction a as [|[k2 v2] a IH]; cbn; [trivial|]. intros [_ H]. apply IH. exact H.
+Qed.
+
+(* the marker is a key of a sorted map: the suffix after it is literally what follows it *)
+Lemma sm_after_split (a : map_) k v b : sorted (a ++ (k, v) :: b) -> sm_after k (a ++ (k, v) :: b) = b.
+Proof.
+  induction a as [|[k2 v2] a IH]; cbn.
+  - intros [H1 _]. rewrite bleb_refl. apply sm_after_lb. exact H1.
+  - intros [H1 H2]. apply lb_app in H1 as [_ H1]. cbn in H1. destruct H1 as [H1 _].
+    unfold bleb. rewrite (bltb_asym _ _ H1). cbn. apply IH. exact H2.
+Qed.
+End AfterFacts.
+
+(* ---- contents of a page are keys of the items scanned ---- *)
+Lemma scan_contents_in pre delim mk items : forall cnt lp acc k body,
+  In (k, body) (lr_contents (scan pre delim mk items cnt lp acc)) ->
+  In (k, body) (lr_contents acc) \/ exists o, In (k, o) items.
+Proof.
+  induction items as [|[k0 o0] items IH]; intros cnt lp acc k body.
+  - cbn [scan]. auto.
+  - assert (IH' : forall cnt lp acc, In (k, body) (lr_contents (scan pre delim mk items cnt lp acc)) ->
+       In (k, body) (lr_contents acc) \/ exists o, In (k, o) ((k0, o0) :: items)).
+    { intros c l a H. apply IH in H. destruct H as [H|[o H]]; [left; exact H|right; exists o; right; exact H]. }
+    cbn [scan]. destruct (o_data o0) as [v|] eqn:Eo; [|cbn [lr_contents]; auto].
+    destruct (prefix_match pre delim k0) as [| |p] eqn:Epm.
+    + apply IH'.
+    + destruct (vd_marker v) eqn:Em; [apply IH'|].
+      assert (Hin : In (k, body) (lr_contents acc ++ [(k0, vd_body v)]) ->
+                    In (k, body) (lr_contents acc) \/ exists o, In (k, o) ((k0, o0) :: items)).
+      { intros H. apply in_app_or in H. destruct H as [H|[H|[]]]; [left; exact H|].
+        inversion H; subst. right. exists o0. left. reflexivity. }
+      destruct ((0 <? mk) && (mk <=? cnt + 1)) eqn:Ef.
+      * cbn [lr_contents]. exact Hin.
+      * intros H. apply IH' in H. cbn [lr_contents] in H. destruct H as [H|H]; [apply Hin; exact H|right; exact H].
+    + destruct (vd_marker v) eqn:Em; [apply IH'|].
+      destruct (match lp with Some q => beq p q | None => false end) eqn:El; [apply IH'|].
+      destruct ((0 <? mk) && (mk <=? cnt + 1)) eqn:Ef.
+      * destruct (skip_group pre delim p k0 items) as [nm rest'] eqn:Esk. cbn [lr_contents]. auto.
+      * intros H. apply IH' in H. cbn [lr_contents] in H. exact H.
+Qed.
+
+(* (4) any start-after / marker value: the page lists only keys strictly greater than it *)
+Lemma page_after_marker pre delim mk objs marker k body :
+  marker <> [] -> sorted objs -> data_some objs ->
+  In (k, body) (lr_contents (page pre delim mk objs marker)) -> bltb marker k = true.
+Proof.
+  intros Hm Hs _ Hin. unfold page in Hin. destruct marker as [|c marker]; [congruence|].
+  apply scan_contents_in in Hin. destruct Hin as [[]|[o Ho]].
+  eapply sm_after_gt; eassumption.
+Qed.
+
+(* ---- the listing as two plain folds (contents / common prefixes) ---- *)
+Section Split.
+Variable pre : list N.
+Variable delim : option N.
+
+Fixpoint ucont (items : list (list N * obj)) : list (list N * list N) :=
+  match items with
+  | [] => []
+  | (k, o) :: rest =>
+      match o_data o with
+      | None => ucont rest
+      | Some v =>
+          match prefix_match pre delim k with
+          | MContent => if vd_marker v then ucont rest else (k, vd_body v) :: ucont rest
+          | _ => ucont rest
+          end
+      end
+  end.
+
+Fixpoint upfx (items : list (list N * obj)) (lp : option (list N)) (ps : list (list N))
+  : option (list N) * list (list N) :=
+  match items with
+  | [] => (lp, ps)
+  | (k, o) :: rest =>
+      match o_data o with
+      | None => upfx rest lp ps
+      | Some v =>
+          match prefix_match pre delim k with
+          | MCommon p =>
+              if vd_marker v then upfx rest lp ps else
+              if match lp with Some q => beq p q | None => false end then upfx rest lp ps
+              else upfx rest (Some p) (add_prefix p ps)
+          | _ => upfx rest lp ps
+          end
+      end
+  end.
+
+Lemma ucont_app a b : ucont (a ++ b) = ucont a ++ ucont b.
+Proof.
+  induction a as [|[k o] a IH]; cbn [ucont app]; [reflexivity|].
+  destruct (o_data o) as [v|]; [|exact IH].
+  destruct (prefix_match pre delim k); try exact IH.
+  destruct (vd_marker v); [exact IH|]. rewrite IH. reflexivity.
+Qed.
+
+Lemma upfx_app a b lp ps :
+  upfx (a ++ b) lp ps = upfx b (fst (upfx a lp ps)) (snd (upfx a lp ps)).
+Proof.
+  revert lp ps. induction a as [|[k o] a IH]; intros lp ps; cbn [upfx app fst snd]; [reflexivity|].
+  destruct (o_data o) as [v|]; [|apply IH].
+  destruct (prefix_match pre delim k); try apply IH.
+  destruct (vd_marker v); [apply IH|].
+  destruct (match lp with Some q => beq p q | None => false end); apply IH.
+Qed.
+
+Definition in_group (g : list N) (kv : list N * obj) : Prop :=
+  prefix_match pre delim (fst kv) = MCommon g.
+
+Lemma ucont_group g sk : Forall (in_group g) sk -> ucont sk = [].
+Proof.
+  induction 1 as [|[k o] sk H _ IH]; cbn [ucont]; [reflexivity|].
+  unfold in_group in H. cbn [fst] in H. rewrite H. destruct (o_data o); exact IH.
+Qed.
+
+Lemma upfx_group g sk ps : Forall (in_group g) sk -> upfx sk (Some g) ps = (Some g, ps).
+Proof.
+  induction 1 as [|[k o] sk H _ IH]; cbn [upfx]; [reflexivity|].
+  unfold in_group in H. cbn [fst] in H. rewrite H. rewrite beq_refl.
+  destruct (o_data o) as [v|]; [|exact IH]. destruct (vd_marker v); exact IH.
+Qed.
+
+(* group closure at the end of a full page: the key that follows is not in the group of the
+   last key consumed *)
+Definition closure (kl : list N) (rest : list (list N * obj)) : Prop :=
+  forall g, prefix_match pre delim kl = MCommon g ->
+    match rest with [] => True | (kf, _) :: _ => prefix_match pre delim kf <> MCommon g end.
+
+Lemma skip_group_spec g : forall rest k0 nm rest',
+  skip_group pre delim g k0 rest = (nm, rest') ->
+  exists sk, rest = sk ++ rest' /\ Forall (in_group g) sk /\
+    (forall o0, exists c' ol, (k0, o0) :: sk = c' ++ [(nm, ol)]) /\
+    (prefix_match pre delim k0 = MCommon g -> prefix_match pre delim nm = MCommon g) /\
+    match rest' with [] => True | (kf, _) :: _ => prefix_match pre delim kf <> MCommon g end.
+Proof.
+  induction rest as [|[k o] rest IH]; intros k0 nm rest' H; cbn [skip_group] in H.
+  - inversion H; subst. exists []. repeat split; auto.
+    intros o0. exists [], o0. reflexivity.
+  - assert (Hstop : forall p, prefix_match pre delim k = p -> p <> MCommon g ->
+              (nm, rest') = (k0, (k, o) :: rest) ->
+              exists sk, (k, o) :: rest = sk ++ rest' /\ Forall (in_group g) sk /\
+                (forall o0, exists c' ol, (k0, o0) :: sk = c' ++ [(nm, ol)]) /\
+                (prefix_match pre delim k0 = MCommon g -> prefix_match pre delim nm = MCommon g) /\
+                match rest' with [] => True | (kf, _) :: _ => prefix_match pre delim kf <> MCommon g end).
+    { intros p Hp Hne E. inversion E; subst. exists []. repeat split; auto.
+      intros o0. exists [], o0. reflexivity. }
+    destruct (prefix_match pre delim k) as [| |p] eqn:Epm.
+    + eapply Hstop; [reflexivity|discriminate|congruence].
+    + eapply Hstop; [reflexivity|discriminate|congruence].
+    + destruct (beq p g) eqn:Eb.
+      * apply beq_eq in Eb. subst p. apply IH in H.
+        destruct H as (sk & E1 & F & L & G & C). exists ((k, o) :: sk). repeat split.
+        -- cbn. rewrite <- E1. reflexivity.
+        -- constructor; [exact Epm|exact F].
+        -- intros o0. destruct (L o) as (c' & ol & E). exists ((k0, o0) :: c'), ol. cbn. rewrite <- E. reflexivity.
+        -- intros _. apply G. exact Epm.
+        -- exact C.
+      * eapply Hstop; [reflexivity| |congruence]. apply beq_neq in Eb. congruence.
+Qed.
+
+Lemma scan_split mk : 1 <= mk -> forall items, data_some items ->
+  forall cnt lp acc, cnt < mk -> lr_truncated acc = false ->
+  exists consumed rest, items = consumed ++ rest /\
+    lr_contents (scan pre delim mk items cnt lp acc) = lr_contents acc ++ ucont consumed /\
+    lr_prefixes (scan pre delim mk items cnt lp acc) = snd (upfx consumed lp (lr_prefixes acc)) /\
+    ((rest = [] /\ lr_truncated (scan pre delim mk items cnt lp acc) = false) \/
+     (rest <> [] /\ lr_truncated (scan pre delim mk items cnt lp acc) = true /\
+      exists c' kl ol, consumed = c' ++ [(kl, ol)] /\
+        lr_next (scan pre delim mk items cnt lp acc) = kl /\ closure kl rest)).
+Proof.
+  intros Hmk items Hd. induction Hd as [|[k o] items Ho Hd IH]; intros cnt lp acc Hc Ht.
+  - cbn [scan]. exists [], []. cbn. rewrite app_nil_r. repeat split. left. auto.
+  - cbn [snd] in Ho.
+    (* skipping an item *)
+    assert (Hskip : forall cnt' lp' acc',
+       cnt' < mk -> lr_truncated acc' = false ->
+       ucont [(k, o)] = [] ->
+       upfx [(k, o)] lp' (lr_prefixes acc') = (lp', lr_prefixes acc') ->
+       exists consumed rest, (k, o) :: items = consumed ++ rest /\
+        lr_contents (scan pre delim mk items cnt' lp' acc') = lr_contents acc' ++ ucont consumed /\
+        lr_prefixes (scan pre delim mk items cnt' lp' acc') = snd (upfx consumed lp' (lr_prefixes acc')) /\
+        ((rest = [] /\ lr_truncated (scan pre delim mk items cnt' lp' acc') = false) \/
+         (rest <> [] /\ lr_truncated (scan pre delim mk items cnt' lp' acc') = true /\
+          exists c' kl ol, consumed = c' ++ [(kl, ol)] /\
+            lr_next (scan pre delim mk items cnt' lp' acc') = kl /\ closure kl rest))).
+    { intros cnt' lp' acc' Hc' Ht' Hu Hp.
+      destruct (IH cnt' lp' acc' Hc' Ht') as (cs & rs & E & C & P & T).
+      exists ((k, o) :: cs), rs. split; [cbn; rewrite E; reflexivity|].
+      split; [|split].
+      - change ((k, o) :: cs) with ([(k, o)] ++ cs). rewrite ucont_app, Hu. exact C.
+      - change ((k, o) :: cs) with ([(k, o)] ++ cs). rewrite upfx_app, Hp. cbn [fst snd]. exact P.
+      - destruct T as [T|(T1 & T2 & c' & kl & ol & T3 & T4 & T5)]; [left; exact T|right].
+        split; [exact T1|]. split; [exact T2|]. exists ((k, o) :: c'), kl, ol. rewrite T3. auto. }
+    cbn [scan]. destruct (o_data o) as [v|] eqn:Eo; [|congruence].
+    destruct (prefix_match pre delim k) as [| |p] eqn:Epm.
+    + apply Hskip; auto; cbn [ucont upfx]; rewrite Eo, Epm; reflexivity.
+    + destruct (vd_marker v) eqn:Em.
+      { apply Hskip; auto; cbn [ucont upfx]; rewrite Eo, Epm, ?Em; reflexivity. }
+      destruct ((0 <? mk) && (mk <=? cnt + 1)) eqn:Ef.
+      * exists [(k, o)], items. cbn [lr_contents lr_prefixes lr_truncated lr_next app ucont upfx snd].
+        rewrite Eo, Epm, Em. repeat split.
+        destruct items as [|it items']; [left; auto|right].
+        split; [discriminate|]. split; [reflexivity|]. exists [], k, o. repeat split.
+        intros g Hg. congruence.
+      * destruct (IH (cnt + 1) lp
+          {| lr_contents := lr_contents acc ++ [(k, vd_body v)]; lr_prefixes := lr_prefixes acc;
+             lr_truncated := false; lr_next := []; lr_panic := false |}) as (cs & rs & E & C & P & T);
+          [lia|reflexivity|].
+        exists ((k, o) :: cs), rs. split; [cbn; rewrite E; reflexivity|].
+        cbn [lr_contents lr_prefixes] in C, P. split; [|split].
+        -- rewrite C. cbn [ucont]. rewrite Eo, Epm, Em. rewrite <- app_assoc. reflexivity.
+        -- rewrite P. cbn [upfx]. rewrite Eo, Epm. reflexivity.
+        -- destruct T as [T|(T1 & T2 & c' & kl & ol & T3 & T4 & T5)]; [left; exact T|right].
+           split; [exact T1|]. split; [exact T2|]. exists ((k, o) :: c'), kl, ol. rewrite T3. auto.
+    + destruct (vd_marker v) eqn:Em.
+      { apply Hskip; auto; cbn [ucont upfx]; rewrite Eo, Epm, ?Em; reflexivity. }
+      destruct (match lp with Some q => beq p q | None => false end) eqn:El.
+      { apply Hskip; auto; cbn [ucont upfx]; rewrite Eo, Epm, ?Em, ?El; reflexivity. }
+      destruct ((0 <? mk) && (mk <=? cnt + 1)) eqn:Ef.
+      * destruct (skip_group pre delim p k items) as [nm rest'] eqn:Esk.
+        apply skip_group_spec in Esk. destruct Esk as (sk & E1 & F & L & G & C).
+        exists ((k, o) :: sk), rest'. cbn [lr_contents lr_prefixes lr_truncated lr_next].
+        split; [cbn; rewrite E1; reflexivity|]. split; [|split].
+        -- cbn [ucont]. rewrite Eo, Epm. rewrite (ucont_group p sk F), app_nil_r. reflexivity.
+        -- cbn [upfx]. rewrite Eo, Epm, Em, El. rewrite (upfx_group p sk _ F). reflexivity.
+        -- destruct rest' as [|it rest'']; [left; auto|right].
+           split; [discriminate|]. split; [reflexivity|].
+           destruct (L o) as (c' & ol & E). exists c', nm, ol. split; [exact E|]. split; [reflexivity|].
+           intros g Hg. rewrite (G Epm) in Hg. inversion Hg; subst. exact C.
+      * destruct (IH (cnt + 1) (Some p)
+          {| lr_contents := lr_contents acc; lr_prefixes := add_prefix p (lr_prefixes acc);
+             lr_truncated := false; lr_next := []; lr_panic := false |}) as (cs & rs & E & C & P & T);
+          [lia|reflexivity|].
+        exists ((k, o) :: cs), rs. split; [cbn; rewrite E; reflexivity|].
+        cbn [lr_contents lr_prefixes] in C, P. split; [|split].
+        -- rewrite C. cbn [ucont]. rewrite Eo, Epm. reflexivity.
+        -- rewrite P. cbn [upfx]. rewrite Eo, Epm, Em, El. reflexivity.
+        -- destruct T as [T|(T1 & T2 & c' & kl & ol & T3 & T4 & T5)]; [left; exact T|right].
+           split; [exact T1|]. split; [exact T2|]. exists ((k, o) :: c'), kl, ol. rewrite T3. auto.
+Qed.
+
+(* the unpaginated scan (max-keys 0) is exactly the two folds *)
+Lemma scan_unpaged items : data_some items -> forall cnt lp acc,
+  lr_contents (scan pre delim 0 items cnt lp acc) = lr_contents acc ++ ucont items /\
+  lr_prefixes (scan pre delim 0 items cnt lp acc) = snd (upfx items lp (lr_prefixes acc)).
+Proof.
+  intros Hd. induction Hd as [|[k o] items Ho Hd IH]; intros cnt lp acc.
+  - cbn. rewrite app_nil_r. auto.
+  - cbn [snd] in Ho. cbn [scan ucont upfx]. destruct (o_data o) as [v|] eqn:Eo; [|congruence].
+    change ((0 <? 0) && (0 <=? cnt + 1)) with false. cbv iota.
+    destruct (prefix_match pre delim k) as [| |p] eqn:Epm.
+    + apply IH.
+    + destruct (vd_marker v) eqn:Em; [apply IH|].
+      destruct (IH (cnt + 1) lp
+          {| lr_contents := lr_contents acc ++ [(k, vd_body v)]; lr_prefixes := lr_prefixes acc;
+             lr_truncated := false; lr_next := []; lr_panic := false |}) as [C P].
+      cbn [lr_contents lr_prefixes] in C, P. rewrite C, P, <- app_assoc. auto.
+    + destruct (vd_marker v) eqn:Em; [apply IH|].
+      destruct (match lp with Some q => beq p q | None => false end) eqn:El; [apply IH|].
+      destruct (IH (cnt + 1) (Some p)
+          {| lr_contents := lr_contents acc; lr_prefixes := add_prefix p (lr_prefixes acc);
+             lr_truncated := false; lr_next := []; lr_panic := false |}) as [C P].
+      cbn [lr_contents lr_prefixes] in C, P. rewrite C, P. auto.
+Qed.
+
+(* ---- common prefixes distribute over append when no group straddles the cut ---- *)
+Lemma add_prefix_in p ps : In p (add_prefix p ps).
+Proof.
+  unfold add_prefix. destruct (existsb (beq p) ps) eqn:E.
+  - apply existsb_exists in E. destruct E as (x & Hx & E). apply beq_eq in E. subst. exact Hx.
+  - apply in_or_app. right. left. reflexivity.
+Qed.
+
+Lemma add_prefix_incl p ps x : In x (add_prefix p ps) -> In x ps \/ x = p.
+Proof.
+  unfold add_prefix. destruct (existsb (beq p) ps); [auto|].
+  intros H. apply in_app_or in H. destruct H as [H|[H|[]]]; auto.
+Qed.
+
+Lemma add_prefix_keeps p ps x : In x ps -> In x (add_prefix p ps).
+Proof.
+  unfold add_prefix. destruct (existsb (beq p) ps); [auto|]. intros H. apply in_or_app. auto.
+Qed.
+
+Definition lp_ok (lp : option (list N)) (ps : list (list N)) : Prop :=
+  match lp with None => True | Some q => In q ps end.
+
+Lemma upfx_lp_ok items : forall lp ps, lp_ok lp ps -> lp_ok (fst (upfx items lp ps)) (snd (upfx items lp ps)).
+Proof.
+  induction items as [|[k o] items IH]; intros lp ps H; cbn [upfx fst snd]; [exact H|].
+  destruct (o_data o) as [v|]; [|apply IH; exact H].
+  destruct (prefix_match pre delim k); try (apply IH; exact H).
+  destruct (vd_marker v); [apply IH; exact H|].
+  destruct (match lp with Some q => beq p q | None => false end); [apply IH; exact H|].
+  apply IH. cbn. apply add_prefix_in.
+Qed.
+
+Lemma upfx_from items : forall lp ps g, In g (snd (upfx items lp ps)) ->
+  In g ps \/ exists k o, In (k, o) items /\ prefix_match pre delim k = MCommon g.
+Proof.
+  induction items as [|[k o] items IH]; intros lp ps g; cbn [upfx snd]; [auto|].
+  assert (IH' : forall lp ps, In g (snd (upfx items lp ps)) ->
+       In g ps \/ exists k' o', In (k', o') ((k, o) :: items) /\ prefix_match pre delim k' = MCommon g).
+  { intros l q H. apply IH in H. destruct H as [H|(k' & o' & H1 & H2)]; [auto|].
+    right. exists k', o'. split; [right; exact H1|exact H2]. }
+  destruct (o_data o) as [v|]; [|apply IH'].
+  destruct (prefix_match pre delim k) eqn:Epm; try apply IH'.
+  destruct (vd_marker v); [apply IH'|].
+  destruct (match lp with Some q => beq p q | None => false end); [apply IH'|].
+  intros H. apply IH' in H. destruct H as [H|H]; [|auto].
+  apply add_prefix_incl in H. destruct H as [H|H]; [auto|]. subst g.
+  right. exists k, o. split; [left; reflexivity|exact Epm].
+Qed.
+
+Lemma add_prefix_shift p ps qs : ~ In p ps -> add_prefix p (ps ++ qs) = ps ++ add_prefix p qs.
+Proof.
+  intros Hn. unfold add_prefix. rewrite existsb_app.
+  assert (E : existsb (beq p) ps = false).
+  { destruct (existsb (beq p) ps) eqn:E; [|reflexivity]. exfalso. apply Hn.
+    apply existsb_exists in E. destruct E as (x & Hx & E). apply beq_eq in E. subst. exact Hx. }
+  rewrite E. cbn [orb]. destruct (existsb (beq p) qs); [reflexivity|]. rewrite app_assoc. reflexivity.
+Qed.
+
+Lemma upfx_shift items ps : 
+  (forall k o g, In (k, o) items -> prefix_match pre delim k = MCommon g -> ~ In g ps) ->
+  forall lp lp' qs,
+  (lp = lp' \/ exists q, lp = Some q /\ In q ps /\ lp' = None) ->
+  snd (upfx items lp (ps ++ qs)) = ps ++ snd (upfx items lp' qs).
+Proof.
+  induction items as [|[k o] items IH]; intros Hg lp lp' qs Hl; cbn [upfx snd]; [reflexivity|].
+  assert (Hg' : forall k o g, In (k, o) items -> prefix_match pre delim k = MCommon g -> ~ In g ps).
+  { intros k' o' g H. apply (Hg k' o' g). right. exact H. }
+  specialize (IH Hg').
+  destruct (o_data o) as [v|]; [|apply IH; exact Hl].
+  destruct (prefix_match pre delim k) eqn:Epm; try (apply IH; exact Hl).
+  destruct (vd_marker v); [apply IH; exact Hl|].
+  assert (Hp : ~ In p ps) by (apply (Hg k o p); [left; reflexivity|exact Epm]).
+  destruct Hl as [Hl|(q & H1 & H2 & H3)].
+  - subst lp'. destruct (match lp with Some q => beq p q | None => false end).
+    + apply IH. left. reflexivity.
+    + rewrite add_prefix_shift by exact Hp. apply IH. left. reflexivity.
+  - subst lp lp'. assert (E : beq p q = false). { apply beq_neq. intros ->. contradiction. }
+    rewrite E. rewrite add_prefix_shift by exact Hp. apply IH. left. reflexivity.
+Qed.
+
+Definition group_disjoint (c r : list (list N * obj)) : Prop :=
+  forall k1 o1 k2 o2 g, In (k1, o1) c -> In (k2, o2) r ->
+    prefix_match pre delim k1 = MCommon g -> prefix_match pre delim k2 <> MCommon g.
+
+Lemma upfx_distr c r : group_disjoint c r ->
+  snd (upfx (c ++ r) None []) = snd (upfx c None []) ++ snd (upfx r None []).
+Proof.
+  intros Hd. rewrite upfx_app.
+  pose proof (upfx_lp_ok c None [] I) as Hok.
+  pose proof (upfx_from c None []) as Hfrom.
+  destruct (upfx c None []) as [lp ps]. cbn [fst snd] in *.
+  rewrite <- (app_nil_r ps) at 1. apply upfx_shift.
+  - intros k o g Hin Hpm Hg. apply Hfrom in Hg. destruct Hg as [[]|(k1 & o1 & H1 & H2)].
+    exact (Hd k1 o1 k o g H1 Hin H2 Hpm).
+  - destruct lp as [q|]; [right; exists q; auto|left; reflexivity].
+Qed.
+End Split.
+
+(* ---- contiguity of groups: no group straddles the end of a full page ---- *)
+Lemma groups_contiguous_suffix pre delim l0 l :
+  groups_contiguous pre delim (l0 ++ l) -> groups_contiguous pre delim l.
+Proof.
+  intros H l1 k1 l2 k2 l3 p E. apply (H (l0 ++ l1) k1 l2 k2 l3 p).
+  rewrite E, app_assoc. reflexivity.
+Qed.
+
+Lemma contig_mid pre delim (a : list (list N * obj)) k1 o1 m k2 o2 d g :
+  groups_contiguous pre delim (map fst (a ++ (k1, o1) :: m ++ (k2, o2) :: d)) ->
+  prefix_match pre delim k1 = MCommon g -> prefix_match pre delim k2 = MCommon g ->
+  forall x, In x m -> prefix_match pre delim (fst x) = MCommon g.
+Proof.
+  intros H H1 H2 x Hx.
+  apply (H (map fst a) k1 (map fst m) k2 (map fst d) g); [|exact H1|exact H2|apply in_map; exact Hx].
+  rewrite map_app. cbn [map fst]. rewrite map_app. reflexivity.
+Qed.
+
+Lemma contig_disjoint pre delim c' kl ol rest :
+  groups_contiguous pre delim (map fst ((c' ++ [(kl, ol)]) ++ rest)) ->
+  closure pre delim kl rest ->
+  group_disjoint pre delim (c' ++ [(kl, ol)]) rest.
+Proof.
+  intros Hc Hcl k1 o1 k2 o2 g In1 In2 P1 P2.
+  destruct rest as [|[kf of] rest']; [destruct In2|].
+  assert (Pl : prefix_match pre delim kl = MCommon g).
+  { apply in_app_or in In1. destruct In1 as [In1|[E|[]]]; [|inversion E; subst; exact P1].
+    apply in_split in In1. destruct In1 as (a & b & ->).
+    apply in_split in In2. destruct In2 as (c & d & E2).
+    rewrite E2 in Hc.
+    replace (((a ++ (k1, o1) :: b) ++ [(kl, ol)]) ++ c ++ (k2, o2) :: d)
+      with (a ++ (k1, o1) :: (b ++ (kl, ol) :: c) ++ (k2, o2) :: d) in Hc.
+    - apply (contig_mid pre delim a k1 o1 _ k2 o2 d g Hc P1 P2 (kl, ol)).
+      apply in_or_app. right. left. reflexivity.
+    - repeat (rewrite <- app_assoc; cbn [app]). reflexivity. }
+  assert (Pf : prefix_match pre delim kf = MCommon g).
+  { destruct In2 as [E|In2]; [inversion E; subst; exact P2|].
+    apply in_split in In1. destruct In1 as (a & b & E1).
+    apply in_split in In2. destruct In2 as (c & d & ->).
+    rewrite E1 in Hc.
+    replace ((a ++ (k1, o1) :: b) ++ (kf, of) :: c ++ (k2, o2) :: d)
+      with (a ++ (k1, o1) :: (b ++ (kf, of) :: c) ++ (k2, o2) :: d) in Hc.
+    - apply (contig_mid pre delim a k1 o1 _ k2 o2 d g Hc P1 P2 (kf, of)).
+      apply in_or_app. right. left. reflexivity.
+    - repeat (rewrite <- app_assoc; cbn [app]). reflexivity. }
+  exact (Hcl g Pl Pf).
+Qed.
+
+(* ---- (2) progress: a truncated page hands back a marker that is a key of the map and lies
+   strictly after the marker it was asked with.
+
+   ORIGINAL STATEMENT (false when [] is a key, see page_progress_as_stated_false below):
+
+   Lemma page_progress pre delim mk objs marker :
+     1 <= mk -> sorted objs -> data_some objs ->
+     let r := page pre delim mk objs marker in
+     lr_truncated r = true ->
+     In (lr_next r) (map fst objs) /\ (marker <> [] -> bltb marker (lr_next r) = true) /\ lr_next r <> [].
+   ---- *)
+Lemma page_progress_gen pre delim mk objs marker :
   1 <= mk -> sorted objs -> data_some objs ->
+  let r := page pre delim mk objs marker in
+  lr_truncated r = true ->
+  In (lr_next r) (map fst objs) /\ (marker <> [] -> bltb marker (lr_next r) = true) /\
+  (marker <> [] \/ ~ In [] (map fst objs) -> lr_next r <> []).
+Proof.
+  intros Hmk Hs Hd r Ht. unfold page in r.
+  set (items := match marker with [] => objs | _ :: _ => sm_after marker objs end) in *.
+  assert (Hincl : forall x, In x items -> In x objs).
+  { subst items. destruct marker; [auto|]. intros x. apply sm_after_incl. }
+  assert (Hdi : data_some items).
+  { unfold data_some in *. rewrite Forall_forall in *. intros x Hx. apply Hd, Hincl, Hx. }
+  destruct (scan_split pre delim mk Hmk items Hdi 0 None empty_list) as (cs & rs & E & _ & _ & T);
+    [lia|reflexivity|]. fold r in T.
+  destruct T as [[_ T]|(_ & _ & c' & kl & ol & Ec & En & _)]; [congruence|].
+  assert (Hin : In (kl, ol) items).
+  { rewrite E, Ec. apply in_or_app. left. apply in_or_app. right. left. reflexivity. }
+  assert (Hk : In (lr_next r) (map fst objs)).
+  { rewrite En. change kl with (fst (kl, ol)). apply in_map. apply Hincl. exact Hin. }
+  assert (Hgt : marker <> [] -> bltb marker (lr_next r) = true).
+  { intros Hm. rewrite En. subst items. destruct marker as [|c marker]; [congruence|].
+    eapply sm_after_gt; eassumption. }
+  split; [exact Hk|]. split; [exact Hgt|].
+  intros [Hm|Hne] E0.
+  - apply Hgt in Hm. rewrite E0 in Hm. destruct marker; discriminate.
+  - apply Hne. rewrite <- E0. exact Hk.
+Qed.
+
+Lemma page_progress_nonempty_keys pre delim mk objs marker :
+  1 <= mk -> sorted objs -> data_some objs -> ~ In [] (map fst objs) ->
   let r := page pre delim mk objs marker in
   lr_truncated r = true ->
   In (lr_next r) (map fst objs) /\ (marker <> [] -> bltb marker (lr_next r) = true) /\ lr_next r <> [].
 Proof.
-Admitted.
+  intros Hmk Hs Hd Hne r Ht.
+  destruct (page_progress_gen pre delim mk objs marker Hmk Hs Hd Ht) as (H1 & H2 & H3).
+  split; [exact H1|]. split; [exact H2|]. apply H3. right. exact Hne.
+Qed.
 
-(* (3) the walk terminates within |objs|+1 pages, and its pages concatenate to exactly the
-   unpaginated listing: every key once, in order; every common prefix once *)
-Theorem walk_complete pre delim mk objs :
+(* ---- (3) the walk terminates within |objs|+1 pages, and its pages concatenate to exactly the
+   unpaginated listing: every key once, in order; every common prefix once.
+
+   ORIGINAL STATEMENT (false when [] is a key, see walk_complete_as_stated_false below):
+
+   Theorem walk_complete pre delim mk objs :
+     1 <= mk -> sorted objs -> data_some objs ->
+     groups_contiguous pre delim (map fst objs) ->
+     exists pages,
+       walk (S (length objs)) pre delim mk objs [] = Some pages /\
+       flat_map (fun r => map fst (lr_contents r)) pages = map fst (lr_contents (unpaged pre delim objs)) /\
+       flat_map lr_prefixes pages = lr_prefixes (unpaged pre delim objs) /\
+       Forall (fun r => entries r <= mk) pages /\
+       (exists r, last (map Some pages) None = Some r /\ lr_truncated r = false).
+
+   Proved below as walk_complete_nonempty_keys: same conclusion, one more hypothesis
+   ~ In [] (map fst objs). ---- *)
+Lemma data_some_app a b : data_some (a ++ b) -> data_some a /\ data_some b.
+Proof. unfold data_some. intros H. apply Forall_app in H. exact H. Qed.
+
+Lemma walk_gen pre delim mk objs :
   1 <= mk -> sorted objs -> data_some objs ->
-  groups_contiguous pre delim (map fst objs) ->
+  groups_contiguous pre delim (map fst objs) -> ~ In [] (map fst objs) ->
+  forall fuel done rest marker,
+    objs = done ++ rest ->
+    match marker with [] => objs | _ => sm_after marker objs end = rest ->
+    (length rest < fuel)%nat ->
+    exists pages,
+      walk fuel pre delim mk objs marker = Some pages /\
+      flat_map (fun r => map fst (lr_contents r)) pages = map fst (ucont pre delim rest) /\
+      flat_map lr_prefixes pages = snd (upfx pre delim rest None []) /\
+      Forall (fun r => entries r <= mk) pages /\
+      (exists r, last (map Some pages) None = Some r /\ lr_truncated r = false).
+Proof.
+  intros Hmk Hs Hd Hg Hne. induction fuel as [|f IH]; intros done rest marker Eo Em Hl; [lia|].
+  cbn [walk]. unfold page. rewrite Em.
+  assert (Hdr : data_some rest) by (rewrite Eo in Hd; apply data_some_app in Hd; tauto).
+  pose proof (page_bound pre delim mk rest Hmk Hdr) as [Hb _].
+  destruct (scan_split pre delim mk Hmk rest Hdr 0 None empty_list) as (cs & rs & E & C & P & T);
+    [lia|reflexivity|].
+  set (r := scan pre delim mk rest 0 None empty_list) in *.
+  cbn [lr_contents lr_prefixes empty_list app] in C, P.
+  destruct T as [[T1 T2]|(T1 & T2 & c' & kl & ol & Ec & En & Hcl)].
+  - rewrite T2. subst rs. rewrite app_nil_r in E. subst cs.
+    exists [r]. split; [reflexivity|]. cbn [flat_map map last]. rewrite !app_nil_r.
+    split; [rewrite C; reflexivity|]. split; [exact P|]. split; [constructor; [exact Hb|constructor]|].
+    exists r. auto.
+  - rewrite T2. rewrite En.
+    assert (Eobjs : objs = (done ++ c') ++ (kl, ol) :: rs).
+    { rewrite Eo, E, Ec. repeat (rewrite <- app_assoc; cbn [app]). reflexivity. }
+    assert (Hkl : kl <> []).
+    { intros ->. apply Hne. rewrite Eobjs, map_app. apply in_or_app. right. left. reflexivity. }
+    destruct (IH (done ++ cs) rs kl) as (pages & W & PC & PP & PB & (rl & L1 & L2)).
+    + rewrite Eo, E, app_assoc. reflexivity.
+    + destruct kl as [|c kl]; [congruence|]. rewrite Eobjs. apply sm_after_split. rewrite <- Eobjs. exact Hs.
+    + assert (length rest = length cs + length rs)%nat by (rewrite E; apply app_length).
+      assert (length cs = S (length c'))%nat by (rewrite Ec, app_length; cbn; lia). lia.
+    + rewrite W. exists (r :: pages). split; [reflexivity|]. cbn [flat_map].
+      split; [|split; [|split]].
+      * rewrite PC, C, E, ucont_app, map_app. reflexivity.
+      * rewrite PP, P, E. symmetry. apply upfx_distr. rewrite Ec. apply contig_disjoint; [|exact Hcl].
+        apply (groups_contiguous_suffix pre delim (map fst done)).
+        rewrite <- map_app, <- Ec, <- E, <- Eo. exact Hg.
+      * constructor; [exact Hb|exact PB].
+      * exists rl. split; [|exact L2]. destruct pages as [|p0 pages]; [cbn in L1; discriminate|].
+        exact L1.
+Qed.
+
+Theorem walk_complete_nonempty_keys pre delim mk objs :
+  1 <= mk -> sorted objs -> data_some objs ->
+  groups_contiguous pre delim (map fst objs) -> ~ In [] (map fst objs) ->
   exists pages,
     walk (S (length objs)) pre delim mk objs [] = Some pages /\
     flat_map (fun r => map fst (lr_contents r)) pages = map fst (lr_contents (unpaged pre delim objs)) /\
@@ -51,13 +669,65 @@ Theorem walk_complete pre delim mk objs :
     Forall (fun r => entries r <= mk) pages /\
     (exists r, last (map Some pages) None = Some r /\ lr_truncated r = false).
 Proof.
-Admitted.
+  intros Hmk Hs Hd Hg Hne.
+  destruct (walk_gen pre delim mk objs Hmk Hs Hd Hg Hne (S (length objs)) [] objs [] eq_refl eq_refl)
+    as (pages & W & PC & PP & PB & PL); [lia|].
+  exists pages. unfold unpaged.
+  destruct (scan_unpaged pre delim objs Hd 0 None empty_list) as [C P]. rewrite C, P.
+  cbn [lr_contents lr_prefixes empty_list app]. auto.
+Qed.
 
-(* (4) any start-after / marker value: the page lists only keys strictly greater than it *)
-Lemma page_after_marker pre delim mk objs marker k body :
-  marker <> [] -> sorted objs -> data_some objs ->
-  In (k, body) (lr_contents (page pre delim mk objs marker)) -> bltb marker k = true.
+(* ---- the original statements (2) and (3) are false: the empty key ---- *)
+Definition cex_obj : obj :=
+  {| o_data := Some {| vd_vid := 1%N; vd_null := true; vd_marker := false; vd_body := []; vd_meta := [] |};
+     o_vers := [] |}.
+Definition cex_objs : list (list N * obj) := [([], cex_obj); ([1%N], cex_obj)].
+
+Example walk_empty_key_refuted :
+  sorted cex_objs /\ data_some cex_objs /\ groups_contiguous [] None (map fst cex_objs) /\
+  lr_truncated (page [] None 1 cex_objs []) = true /\
+  lr_next (page [] None 1 cex_objs []) = [] /\
+  forall n, walk n [] None 1 cex_objs [] = None.
 Proof.
-Admitted.
+  split; [cbn; auto|]. split; [repeat constructor; discriminate|].
+  split; [intros l1 k1 l2 k2 l3 p _ H; cbn in H; discriminate|].
+  split; [reflexivity|]. split; [reflexivity|].
+  induction n as [|n IH]; [reflexivity|]. cbn [walk].
+  change (lr_truncated (page [] None 1 cex_objs [])) with true.
+  change (lr_next (page [] None 1 cex_objs [])) with (@nil N).
+  cbv iota. rewrite IH. reflexivity.
+Qed.
 
-Print Assumptions walk_complete.
+Example page_progress_as_stated_false :
+  ~ (forall pre delim mk objs marker,
+       1 <= mk -> sorted objs -> data_some objs ->
+       let r := page pre delim mk objs marker in
+       lr_truncated r = true ->
+       In (lr_next r) (map fst objs) /\ (marker <> [] -> bltb marker (lr_next r) = true) /\ lr_next r <> []).
+Proof.
+  intros H. destruct walk_empty_key_refuted as (Hs & Hd & _ & Ht & Hn & _).
+  destruct (H [] None 1 cex_objs [] ltac:(lia) Hs Hd Ht) as (_ & _ & H3). exact (H3 Hn).
+Qed.
+
+Example walk_complete_as_stated_false :
+  ~ (forall pre delim mk objs,
+       1 <= mk -> sorted objs -> data_some objs ->
+       groups_contiguous pre delim (map fst objs) ->
+       exists pages,
+         walk (S (length objs)) pre delim mk objs [] = Some pages /\
+         flat_map (fun r => map fst (lr_contents r)) pages = map fst (lr_contents (unpaged pre delim objs)) /\
+         flat_map lr_prefixes pages = lr_prefixes (unpaged pre delim objs) /\
+         Forall (fun r => entries r <= mk) pages /\
+         (exists r, last (map Some pages) None = Some r /\ lr_truncated r = false)).
+Proof.
+  intros H. destruct walk_empty_key_refuted as (Hs & Hd & Hg & _ & _ & Hw).
+  destruct (H [] None 1 cex_objs ltac:(lia) Hs Hd Hg) as (pages & W & _).
+  rewrite Hw in W. discriminate.
+Qed.
+
+Print Assumptions page_bound.
+Print Assumptions page_after_marker.
+Print Assumptions page_progress_gen.
+Print Assumptions page_progress_nonempty_keys.
+Print Assumptions walk_complete_nonempty_keys.
+Print Assumptions walk_complete_as_stated_false.
